@@ -158,4 +158,40 @@ def r5_ids(ctx):
     kinds.check_who_may(ctx, "C07.R5", "function taking the whole task list", takes, {ES + "cleanup"}, required={ES + "cleanup"})
 
 
-RULES = [("C07.R1", r1_thread_fn_order), ("C07.R2", r2_join), ("C07.R3", r3_storage), ("C07.R4", r4_scope), ("C07.R5", r5_ids)]
+def r6_one_slot_at_a_time(ctx):
+    """"access during or after destruction is reported as an error" — and only then.  StorageMap::pop is what marks a slot as destroyed
+    (it takes the value out and leaves the tombstone), so a slot may be popped only when its destructor is about to run: in every loop
+    that pops, the popped value is dropped before the next pop.  Popping all slots first and dropping them afterwards makes every
+    later-initialised thread-local look destroyed while an earlier one's destructor is still running."""
+    prog = ctx.prog
+    POPS = {SM + "::pop", T + "Task::pop_local"}
+    n = 0
+    for b in prog.all_bodies({"shuttle_engine", "shuttle_std", "shuttle"}):
+        if b.parent or "::tests::" in b.nkey:
+            continue
+        sites = [s for s, t in b.calls() if (b.callees_of_call(t, passed=False) & POPS) or
+                 any(prog.may_reach([c]) & POPS or c in POPS for c in b.passed_callables(t))]
+        if not sites:
+            continue
+        drops = set()
+        for s in b.sites():
+            st = b.at(s)
+            if st.get("k") == "drop" and "dyn core::any::Any" in st.get("ty", ""):
+                drops.add(s)
+            if st.get("k") == "call" and any(c == "core::mem::drop" or c.startswith("core::mem::drop") for c in b.callees_of_call(st, passed=False)):
+                a = st.get("args") or []
+                if a and a[0].get("k") in ("move", "copy") and "dyn core::any::Any" in (b.local_ty(a[0]["pl"]["l"]) or ""):
+                    drops.add(s)
+        for i, p in enumerate(sites):
+            if b.path_exists(p, lambda x, p=p: x == p) is None:
+                continue        # not in a loop
+            n += 1
+            w = b.path_exists(p, lambda x, p=p: x == p, lambda x: x in drops)
+            ctx.ob("C07.R6", "drop-before-next-pop|%s|#%d" % (b.nkey, i), w is None,
+                   "`%s`: the value popped from the thread-local storage is dropped before the loop pops the next slot" % b.nkey if w is None else
+                   "`%s` pops the next thread-local slot before the previously popped value has been dropped: slots are marked destroyed before "
+                   "their destructor's turn, so a destructor sees later-initialised thread-locals as already destroyed" % b.nkey, loc=b.loc(p))
+    ctx.floor("C07.R6", "loops that pop thread-local / per-execution storage", n, 2)
+
+
+RULES = [("C07.R1", r1_thread_fn_order), ("C07.R2", r2_join), ("C07.R3", r3_storage), ("C07.R4", r4_scope), ("C07.R5", r5_ids), ("C07.R6", r6_one_slot_at_a_time)]
